@@ -4,6 +4,7 @@ node delivers, in order and on demand, exactly the successes the specification l
 -/
 import RegexVerif.Lemmas.CompileStep
 import RegexVerif.Lemmas.CompileLoop
+import RegexVerif.Lemmas.CompileCut
 
 namespace RegexVerif.Compile
 open RegexVerif.VM RegexVerif.Code RegexVerif.Writer RegexVerif.Generated.Opcodes RegexVerif RegexVerif.Spec
@@ -49,7 +50,7 @@ theorem sizeAlt_cons_cons (cfg : Cfg) (c d : GoNode) (ds : List GoNode) :
   simp
 
 /-- the highest tier the simulation lemma covers so far -/
-def maxTier : Nat := 2
+def maxTier : Nat := 3
 
 section main
 variable (W : World)
@@ -313,9 +314,67 @@ theorem node_delivers : ∀ (n : GoNode) (a : Nat) (tb : Tables) (pat : Pat),
     simp only [size]
     exact node_delivers c a tb pat (by simpa [tier] using ht) hp (by simpa [GoNode.ok] using hok)
       (by simpa [capsOk] using hcaps) (by simpa [boundsOk] using hbd) hcode hext i T S C s hwf hT he
-  | .poslook c, a, tb, pat, ht, _, _, _, _, _, _, i, T, S, C, s, _, _, _ => by simp [tier, maxTier] at ht; omega
-  | .neglook c, a, tb, pat, ht, _, _, _, _, _, _, i, T, S, C, s, _, _, _ => by simp [tier, maxTier] at ht; omega
-  | .atomic c, a, tb, pat, ht, _, _, _, _, _, _, i, T, S, C, s, _, _, _ => by simp [tier, maxTier] at ht; omega
+  | .poslook c, a, tb, pat, ht, hp, hok, hcaps, hbd, hcode, hext, i, T, S, C, s, hwf, hT, he => by
+    simp only [tier] at ht
+    split at ht
+    · next hdir =>
+      have hdir' : lookDir c = some false := by simpa using hdir
+      simp only [toPat, hdir'] at hp
+      cases hpc : toPat W.TPx false c with
+      | none => rw [hpc] at hp; cases hp
+      | some pc =>
+        rw [hpc] at hp
+        simp only [Option.map_some, Option.some.injEq] at hp
+        subst hp
+        simp only [emitNode] at hcode hext
+        have := poslook_delivers (sz := size W.cfg c) (rs := m W.X.se pc false ⟨i, C⟩) W.hrel hwf.1 hT hcode
+          (emitNode_size _ _ _ _) he (fun r hr => m_caps_ext W.X.se pc false ⟨i, C⟩ r hr)
+          (fun s1 he1 => node_delivers c (a + 2) tb pc (by simp only [Nat.max_le] at ht; exact ht.2) hpc
+            (by simpa [GoNode.ok] using hok) (by simpa [capsOk] using hcaps) (by simpa [boundsOk] using hbd)
+            ((hcode.left').right.cast (by simp) rfl) hext i _ _ C s1 hwf (by simp) he1)
+        refine this.cast (by simp only [size]; omega) ?_
+        simp only [m]
+        cases m W.X.se pc false ⟨i, C⟩ <;> simp [posLookRes]
+    · simp only [maxTier, Nat.max_le] at ht; omega
+  | .neglook c, a, tb, pat, ht, hp, hok, hcaps, hbd, hcode, hext, i, T, S, C, s, hwf, hT, he => by
+    simp only [tier] at ht
+    split at ht
+    · next hdir =>
+      have hdir' : lookDir c = some false := by simpa using hdir
+      simp only [toPat, hdir'] at hp
+      cases hpc : toPat W.TPx false c with
+      | none => rw [hpc] at hp; cases hp
+      | some pc =>
+        rw [hpc] at hp
+        simp only [Option.map_some, Option.some.injEq] at hp
+        subst hp
+        simp only [emitNode] at hcode hext
+        have := neglook_delivers (sz := size W.cfg c) (rs := m W.X.se pc false ⟨i, C⟩) hT hcode
+          (emitNode_size _ _ _ _) he (fun r hr => m_caps_ext W.X.se pc false ⟨i, C⟩ r hr)
+          (fun s1 he1 => node_delivers c (a + 3) tb pc (by simp only [Nat.max_le] at ht; exact ht.2) hpc
+            (by simpa [GoNode.ok] using hok) (by simpa [capsOk] using hcaps) (by simpa [boundsOk] using hbd)
+            ((hcode.left').right.cast (by simp) rfl) hext i _ _ C s1 hwf (by simp) he1)
+        refine this.cast (by simp only [size]; omega) ?_
+        simp only [m]
+        cases m W.X.se pc false ⟨i, C⟩ <;> simp [negLookRes]
+    · simp only [maxTier, Nat.max_le] at ht; omega
+  | .atomic c, a, tb, pat, ht, hp, hok, hcaps, hbd, hcode, hext, i, T, S, C, s, hwf, hT, he => by
+    simp only [toPat] at hp
+    cases hpc : toPat W.TPx false c with
+    | none => rw [hpc] at hp; cases hp
+    | some pc =>
+      rw [hpc] at hp
+      simp only [Option.map_some, Option.some.injEq] at hp
+      subst hp
+      simp only [emitNode] at hcode hext
+      simp only [tier, Nat.max_le] at ht
+      have := atomic_delivers (sz := size W.cfg c) (rs := m W.X.se pc false ⟨i, C⟩) hT hcode
+        (emitNode_size _ _ _ _) he (fun r hr => m_caps_ext W.X.se pc false ⟨i, C⟩ r hr)
+        (fun s1 he1 => node_delivers c (a + 1) tb pc ht.2 hpc
+          (by simpa [GoNode.ok] using hok) (by simpa [capsOk] using hcaps) (by simpa [boundsOk] using hbd)
+          ((hcode.left').right.cast (by simp) rfl) hext i _ _ C s1 hwf (by simp) he1)
+      refine this.cast (by simp only [size]; omega) ?_
+      simp only [m]
   | .backrefcond1 g y, a, tb, pat, ht, _, _, _, _, _, _, i, T, S, C, s, _, _, _ => by
     simp [tier, maxTier] at ht; omega
   | .backrefcond2 g y n, a, tb, pat, ht, _, _, _, _, _, _, i, T, S, C, s, _, _, _ => by
